@@ -195,7 +195,7 @@ package coregex
 
 //@ func (*Regex).expand
 //@   props C08 C07 C05
-//@   requires r != nil && r.engine != nil && matchOK(match, src) && len(template) <= 70368744177664 && len(dst) <= 70368744177664 && len(src) <= 70368744177664
+//@   requires r != nil && r.engine != nil && matchOK(match, src) && len(template) <= 70368744177664 && len(src) <= 70368744177664
 //@   requires base(dst) != base(match) && base(dst) != base(src) && base(dst) != base(template)
 //@   modifies dst[*]
 //@   ensures len(result) >= len(dst) && (forall k :: 0 <= k && k < len(dst) ==> result[k] == old(dst[k]))
@@ -234,3 +234,110 @@ package coregex
 //@   props C09 C07
 //@   requires r != nil
 //@   ensures sameslice(result, r.pattern)
+
+// ---- C08: the replace loops. ReplaceAllLiteral against stdlib's replaceAll over the reference matches: output length
+// (rlen), a fresh copy when nothing matches, text before the first match copied ----
+// anyJ() is an unconstrained constant: an obligation proved for it is proved for every index (generalisation); it keeps
+// the recursive content function out of quantifiers
+//@ uninterpreted spec func anyJ() int
+//@ func (*Regex).ReplaceAllLiteral
+//@   props C08 C07
+//@   requires regexOK(r) && len(src) <= 140737488355328
+//@   modifies @searchState
+//@   ensures len(result) == rlen(r.engine, r.engine.longest, src, 0, false, 0, len(repl))
+//@   ensures fresh(result) || (len(result) == 0 && result == nil)
+//@   ensures !refFound(r.engine, r.engine.longest, src, 0) ==> len(result) == len(src) && (forall k :: 0 <= k && k < len(src) ==> result[k] == src[k])
+//@   loop 1: invariant 0 <= pos && pos <= len(src) && 0 <= lastEnd && lastEnd <= pos && lastMatchEnd <= pos
+//@   ensures refFound(r.engine, r.engine.longest, src, 0) ==> len(result) >= refStart(r.engine, r.engine.longest, src, 0) + len(repl)
+//@   ensures refFound(r.engine, r.engine.longest, src, 0) ==> (forall k :: 0 <= k && k < refStart(r.engine, r.engine.longest, src, 0) ==> result[k] == src[k])
+//@   loop 1: invariant matched ==> len(result) >= refStart(r.engine, r.engine.longest, src, 0) + len(repl) && (forall k :: 0 <= k && k < refStart(r.engine, r.engine.longest, src, 0) ==> result[k] == src[k])
+//@   ensures 0 <= anyJ() && anyJ() < len(result) ==> result[anyJ()] == rbyte(r.engine, r.engine.longest, src, repl, 0, false, 0, anyJ())
+//@   loop 1: invariant 0 <= anyJ() ==> rbyte(r.engine, r.engine.longest, src, repl, 0, false, 0, anyJ()) == ite(anyJ() < len(result), result[anyJ()], rbyte(r.engine, r.engine.longest, src, repl, pos, lastMatchEnd == pos, lastEnd, anyJ() - len(result)))
+//@   after call FindIndicesAt: (lastcall2 && anyJ() >= len(result)) ==> rbyte(r.engine, r.engine.longest, src, repl, pos, lastMatchEnd == pos, lastEnd, (anyJ() - len(result))) == ite(lastcall0 == lastcall1 && lastcall0 == lastMatchEnd, rbyte(r.engine, r.engine.longest, src, repl, nextPos(src, pos), false, lastEnd, (anyJ() - len(result))), ite((anyJ() - len(result)) < lastcall0 - lastEnd, src[lastEnd + (anyJ() - len(result))], ite((anyJ() - len(result)) < lastcall0 - lastEnd + len(repl), repl[(anyJ() - len(result)) - (lastcall0 - lastEnd)], rbyte(r.engine, r.engine.longest, src, repl, ite(lastcall0 == lastcall1, nextPos(src, lastcall1), lastcall1), lastcall0 != lastcall1, lastcall1, (anyJ() - len(result)) - (lastcall0 - lastEnd) - len(repl)))))
+//@   loop 1: exit 0 <= anyJ() ==> rbyte(r.engine, r.engine.longest, src, repl, 0, false, 0, anyJ()) == ite(anyJ() < len(result), result[anyJ()], src[lastEnd + anyJ() - len(result)])
+//@   loop 1: invariant !matched ==> pos == 0 && lastEnd == 0 && len(result) == 0 && lastMatchEnd == -1
+//@   loop 1: invariant matched ==> refFound(r.engine, r.engine.longest, src, 0) && fresh(result)
+//@   loop 1: invariant len(result) + rlen(r.engine, r.engine.longest, src, pos, lastMatchEnd == pos, lastEnd, len(repl)) == rlen(r.engine, r.engine.longest, src, 0, false, 0, len(repl))
+
+// ReplaceAllFunc: the callback is arbitrary, so the output is stated relative to what it returned: `calls` counts its
+// invocations and `total` adds up the lengths it returned (mutable ghosts). The loop copies exactly the text stdlib
+// leaves between matches (rlen with replacement length 0) and calls back once per stdlib match (cnt, unlimited).
+//@ func (*Regex).ReplaceAllFunc
+//@   props C08 C07
+//@   opt callbacks=pure
+//@   requires regexOK(r) && len(src) <= 140737488355328
+//@   modifies @searchState
+//@   ghost var total = 0
+//@   ghost var calls = 0
+//@   after call repl: ghost total = total + len(lastcall)
+//@   after call repl: ghost calls = calls + 1
+//@   ensures len(result) == rlen(r.engine, r.engine.longest, src, 0, false, 0, 0) + total
+//@   ensures calls == cnt(r.engine, r.engine.longest, src, 0, false, -1)
+//@   ensures !refFound(r.engine, r.engine.longest, src, 0) ==> len(result) == len(src) && (forall k :: 0 <= k && k < len(src) ==> result[k] == src[k])
+//@   ensures fresh(result) || (len(result) == 0 && result == nil)
+//@   loop 1: invariant 0 <= pos && pos <= len(src) && 0 <= lastEnd && lastEnd <= pos && lastMatchEnd <= pos && 0 <= total && 0 <= calls
+//@   loop 1: invariant !matched ==> pos == 0 && lastEnd == 0 && len(result) == 0 && lastMatchEnd == -1 && total == 0 && calls == 0
+//@   loop 1: invariant matched ==> refFound(r.engine, r.engine.longest, src, 0) && fresh(result)
+//@   loop 1: invariant len(result) + rlen(r.engine, r.engine.longest, src, pos, lastMatchEnd == pos, lastEnd, 0) == rlen(r.engine, r.engine.longest, src, 0, false, 0, 0) + total
+//@   loop 1: invariant calls + cnt(r.engine, r.engine.longest, src, pos, lastMatchEnd == pos, -1) == cnt(r.engine, r.engine.longest, src, 0, false, -1)
+
+// ReplaceAll with a template: as ReplaceAllFunc, with expand in the role of the callback (`total` adds up what each
+// expansion appended). In addition every expansion sees the groups of the CURRENT match only: a group that did not take
+// part is -1,-1 (a stale pair would expand to text of an earlier match).
+//@ func (*Regex).ReplaceAll
+//@   props C08 C07
+//@   requires regexOK(r) && len(src) <= 70368744177664 && len(repl) <= 70368744177664
+//@   modifies @searchState
+//@   ghost var total = 0
+//@   ghost var calls = 0
+//@   ghost viaLiteral = false
+//@   after call ReplaceAllLiteral: ghost viaLiteral = true
+//@   after call expand: forall i :: 0 <= i && i < numCaptures ==> matchIndices[2*i] == grpS(matchData, i) && matchIndices[2*i+1] == grpE(matchData, i)
+//@   after call expand: ghost total = total + (len(lastcall) - len(result))
+//@   after call expand: ghost calls = calls + 1
+//@   ensures (forall k :: 0 <= k && k < len(repl) ==> repl[k] != 36) ==> viaLiteral
+//@   loop 1: exit ghost dollarAt = rangeindex
+//@   ghost dollarAt = -1
+//@   ensures !viaLiteral ==> 0 <= dollarAt && dollarAt < len(repl) && repl[dollarAt] == 36
+//@   ensures viaLiteral ==> len(result) == rlen(r.engine, r.engine.longest, src, 0, false, 0, len(repl))
+//@   ensures !viaLiteral ==> len(result) == rlen(r.engine, r.engine.longest, src, 0, false, 0, 0) + total && calls == cnt(r.engine, r.engine.longest, src, 0, false, -1)
+//@   loop 1: invariant -1 <= rangeindex && rangeindex < rangelen && !hasDollar && (forall k :: 0 <= k && k <= rangeindex ==> repl[k] != 36)
+//@   loop 2: invariant 0 <= dollarAt && dollarAt < len(repl) && repl[dollarAt] == 36
+//@   loop 2: invariant 0 <= pos && pos <= len(src) && 0 <= lastEnd && lastEnd <= pos && lastNonEmptyMatchEnd <= pos && 0 <= total && 0 <= calls
+//@   loop 2: invariant numCaptures >= 1 && len(matchIndices) == numCaptures * 2 && fresh(matchIndices) && fresh(result) && base(matchIndices) != base(result)
+//@   loop 2: invariant len(result) + rlen(r.engine, r.engine.longest, src, pos, lastNonEmptyMatchEnd == pos, lastEnd, 0) == rlen(r.engine, r.engine.longest, src, 0, false, 0, 0) + total
+//@   loop 2: invariant calls + cnt(r.engine, r.engine.longest, src, pos, lastNonEmptyMatchEnd == pos, -1) == cnt(r.engine, r.engine.longest, src, 0, false, -1)
+//@   loop 3: invariant 0 <= i && i <= numCaptures && matchData != nil
+//@   loop 3: invariant forall j :: 0 <= j && j + 1 < 2 * i && j % 2 == 0 && matchIndices[j] >= 0 ==> matchIndices[j] <= matchIndices[j+1] && matchIndices[j+1] <= len(src)
+//@   loop 3: invariant forall j :: 0 <= j && j < i ==> matchIndices[2*j] == grpS(matchData, j) && matchIndices[2*j+1] == grpE(matchData, j)
+
+// the string variants are separate copies of the loop: output length against the same reference (content: the []byte
+// variants; strings.Builder is modelled by its length only)
+//@ func (*Regex).ReplaceAllLiteralString
+//@   props C08 C07
+//@   requires regexOK(r) && len(src) <= 140737488355328
+//@   modifies @searchState
+//@   ensures len(result) == rlen(r.engine, r.engine.longest, stringBytes(src), 0, false, 0, len(repl))
+//@   ensures !refFound(r.engine, r.engine.longest, stringBytes(src), 0) ==> result == src
+//@   loop 1: invariant 0 <= pos && pos <= len(src) && 0 <= lastEnd && lastEnd <= pos && lastMatchEnd <= pos
+//@   loop 1: invariant !matched ==> pos == 0 && lastEnd == 0 && len(buf.buf) == 0 && lastMatchEnd == -1
+//@   loop 1: invariant matched ==> refFound(r.engine, r.engine.longest, stringBytes(src), 0)
+//@   loop 1: invariant len(buf.buf) + rlen(r.engine, r.engine.longest, stringBytes(src), pos, lastMatchEnd == pos, lastEnd, len(repl)) == rlen(r.engine, r.engine.longest, stringBytes(src), 0, false, 0, len(repl))
+
+//@ func (*Regex).ReplaceAllStringFunc
+//@   props C08 C07
+//@   opt callbacks=pure
+//@   requires regexOK(r) && len(src) <= 140737488355328
+//@   modifies @searchState
+//@   ghost var total = 0
+//@   ghost var calls = 0
+//@   after call repl: ghost total = total + len(lastcall)
+//@   after call repl: ghost calls = calls + 1
+//@   ensures len(result) == rlen(r.engine, r.engine.longest, stringBytes(src), 0, false, 0, 0) + total
+//@   ensures calls == cnt(r.engine, r.engine.longest, stringBytes(src), 0, false, -1)
+//@   ensures !refFound(r.engine, r.engine.longest, stringBytes(src), 0) ==> result == src
+//@   loop 1: invariant 0 <= pos && pos <= len(src) && 0 <= lastEnd && lastEnd <= pos && lastMatchEnd <= pos && 0 <= total && 0 <= calls
+//@   loop 1: invariant !matched ==> pos == 0 && lastEnd == 0 && len(buf.buf) == 0 && lastMatchEnd == -1 && total == 0 && calls == 0
+//@   loop 1: invariant matched ==> refFound(r.engine, r.engine.longest, stringBytes(src), 0)
+//@   loop 1: invariant len(buf.buf) + rlen(r.engine, r.engine.longest, stringBytes(src), pos, lastMatchEnd == pos, lastEnd, 0) == rlen(r.engine, r.engine.longest, stringBytes(src), 0, false, 0, 0) + total
+//@   loop 1: invariant calls + cnt(r.engine, r.engine.longest, stringBytes(src), pos, lastMatchEnd == pos, -1) == cnt(r.engine, r.engine.longest, stringBytes(src), 0, false, -1)
